@@ -8,5 +8,14 @@ for id in $ids; do
   [ -f $d ] || continue
   if ! git -C /repo apply --check $d 2>/dev/null; then echo "$id: PATCH-DOES-NOT-APPLY"; continue; fi
   out=$(tools/try_mutant.sh $p $d 2>&1)
-  echo "$id: $(echo "$out" | grep -c VIOLATION) violation lines; $(echo "$out" | tail -2 | tr '\n' ' ' | cut -c1-120)"
+  keys=$(python3 -c "
+import json,glob
+ks=[]
+for f in sorted(glob.glob('/tmp/try_mutant_replays/*.json')):
+    try: r=json.load(open(f))
+    except Exception: continue
+    k=r.get('key') or ('obligation: '+'; '.join(x.get('name','')[:60] for x in r.get('theorem_or_correspondence',[])[:2]))
+    if k not in ks: ks.append(k)
+print(' | '.join(ks[:3])[:260])" 2>/dev/null)
+  echo "$id: $(echo "$out" | grep -c VIOLATION) violation lines; $(echo "$out" | tail -1 | tr '\n' ' ' | cut -c1-40) [$keys]"
 done
